@@ -129,6 +129,6 @@ func verifPoint(point string, path string) {
 	}
 	if verifSig2At != "" && id == verifSig2At {
 		_ = syscall.Kill(os.Getpid(), verifSig2)
-		time.Sleep(20 * time.Millisecond)
+		time.Sleep(60 * time.Millisecond)
 	}
 }
